@@ -26,7 +26,7 @@ META = {
             "one non-commutative update per element between barriers; arbitrary sequences on one rank; copies) on the real code and "
             "comparing every rank's for_all output with the model's.",
     "note": "Trusted: Lean kernel + propext/Classical.choice/Quot.sound; hand-written model ArrayOps.lean tied to array.ipp only on the generated "
-            "histories; exactly-once atomic delivery of each async to the addressed rank is the execution model (C01/C08), not re-proved here; "
+            "histories; exactly-once atomic delivery of each async to the addressed rank is DERIVED from the communicator model (Props/ContainersComm: C13_array_after_barrier — at the first exit of any barrier, over every interleaving of Comm = Deliver x BarrierME, each element is the fold of exactly the updates addressed to it) rather than assumed; "
             "uint64_t arithmetic is Lean's UInt64; divides is only exercised with non-zero divisors.",
 }
 
